@@ -143,7 +143,7 @@ func main() {
 	// sensitivity suite (thorough): never affects the exit status
 	var mres []mutantResult
 	if *tier == "thorough" && len(prop.Mutants) > 0 {
-		mres = runMutants(root, prop)
+		mres = runMutants(root, *verif, prop)
 		det, tried := 0, 0
 		for _, m := range mres {
 			if m.Outcome != "skipped" {
@@ -327,7 +327,7 @@ func runMutant(root string, prop *core.Property, name string) {
 }
 
 // runMutants evaluates every mutant in sub-processes, four at a time.
-func runMutants(root string, prop *core.Property) []mutantResult {
+func runMutants(root, verif string, prop *core.Property) []mutantResult {
 	res := make([]mutantResult, len(prop.Mutants))
 	sem := make(chan struct{}, 4)
 	var wg sync.WaitGroup
@@ -338,7 +338,7 @@ func runMutants(root string, prop *core.Property) []mutantResult {
 			defer wg.Done()
 			sem <- struct{}{}
 			defer func() { <-sem }()
-			cmd := exec.Command(self, "-prop", prop.ID, "-repo", root, "-mutant", prop.Mutants[i].Name)
+			cmd := exec.Command(self, "-prop", prop.ID, "-repo", root, "-verif", verif, "-mutant", prop.Mutants[i].Name)
 			cmd.Stderr = nil
 			out, err := cmd.Output()
 			r := mutantResult{Name: prop.Mutants[i].Name, Outcome: "error"}
